@@ -301,6 +301,23 @@ func (ba *flatBlobAccess) GetFromComposite(ctx context.Context, parentDigest, ch
 		}
 		ba.refreshesBlobsDurationGetFromComposite.Observe(time.Since(refreshStart).Seconds())
 		ba.refreshesBlobsGetFromComposite.Observe(1)
+	} else {
+		// Slicing was performed without holding any locks. Blocks
+		// may have been rotated in the meantime, causing the
+		// block index of the parent's location to refer to a
+		// different block. Obtain the location once more.
+		parentLocation, err = ba.keyLocationMap.Get(parentKey)
+		if err != nil {
+			ba.lock.Unlock()
+			if status.Code(err) == codes.NotFound {
+				// The parent object disappeared. The child
+				// object can still be returned, but no
+				// entries can be created for the slices.
+				return bChild
+			}
+			bChild.Discard()
+			return buffer.NewBufferFromError(err)
+		}
 	}
 
 	// Create key-location map entries for each of the slices. This
